@@ -166,6 +166,7 @@ def check(cx):
     depends(cx, r5, 'C04', ('R4.3', 'R4.4'), 'Channel::rename_user / ChannelModes::rename_user move the member entry and every rank entry',
             only=r'rename')
     depends(cx, r5, 'C02', ('R2.5',), 'set_nick stores the new nick verbatim')
+    depends(cx, r5, 'C13', ('R13.14',), 'the nick applied is the nick named in the relayed NICK message', only=r'\|NICK\.')
     depends(cx, r5, 'C01', ('R1.8',), 'the source string is recomputed from the new nick',
             only=r'set_nick|update_source|update_nick|writes-user-source|writes-identity\|(nick|source)')
 
